@@ -1,6 +1,7 @@
 SPECIFICATION Spec
 CONSTANTS
   MaxXfers = 3
+  MaxMid = 2
   Emit = TRUE
 INVARIANT WF
 INVARIANT Content
